@@ -384,13 +384,91 @@ def random_cases(acc, d, n, seed):
     body()
 
 
+# Sets that contain sequences: the PVL grammar admits them, the library refuses them at
+# present (a frozenset cannot hold a list).  Whatever it does instead of refusing has
+# to keep the substitutes: (text, values with units written, real numerals written)
+SEQ_IN_SET = [
+    ("a = { (1.50 <mm>, 2), 0.25 <mm> }\nEND\n", 2, ["1.50", "0.25"]),
+    ("a = { (1.5, 2.50) }\nEND\n", 0, ["1.5", "2.50"]),
+    ("a = ( { (1.5 <m>) }, 7 )\nEND\n", 1, ["1.5"]),
+    ("GROUP = g\n b = { (2.50, (3.5 <s>)), 1 }\nEND_GROUP\nEND\n", 1, ["2.50", "3.5"]),
+    ("a = { (1 <m>, 2 <m>), (3 <m>) } <km>\nEND\n", 4, []),
+    ("a = {{(0.10 <um>, 0.1 <um>)}}\nEND\n", 2, ["0.10", "0.1"]),
+]
+
+
+def count_kind(c, kind):
+    if not isinstance(c, tuple) or not c:
+        return 0
+    n = 1 if c[0] == kind else 0
+    if c[0] in ("seq", "set"):
+        n += sum(count_kind(i, kind) for i in c[1])
+    elif c[0] == "q":
+        n += count_kind(c[1], kind)
+    elif c[0] in ("mod", "grp", "obj"):
+        n += sum(count_kind(v, kind) for _, v in c[1])
+    return n
+
+
+def run_loose(case):
+    """A label the library may refuse: if it loads, the substitutes must be everywhere."""
+    d, cfg, text = case["dialect"], case["cfg"], case["text"]
+    try:
+        m = load(d, cfg, text)
+    except BudgetExceeded:
+        return (f"C18/{d}/spins", repr(text))
+    except Exception as e:
+        if type(e).__name__ in ("LexerError", "ParseError"):
+            return "refused"
+        return (f"C18/{d}/load-raises/{type(e).__name__}", f"cfg={cfg}: {e!r}; text={text!r}")
+    out = dict(problems=[], texts=[], decimals=[])
+    got = walk(m, cfg, d, "mod", out)
+    if out["problems"]:
+        rule, msg = out["problems"][0]
+        return (f"C18/{d}/{rule}", f"cfg={cfg}: {msg}; text={text!r}")
+    if count_kind(got, "other"):
+        return (f"C18/{d}/foreign-type-in-result",
+                f"cfg={cfg}: the result holds a value of an undocumented type: {got!r}; "
+                f"text={text!r}")
+    if count_kind(got, "q") != case["nq"]:
+        return (f"C18/{d}/quantity-lost",
+                f"cfg={cfg}: {case['nq']} values with units were written, "
+                f"{count_kind(got, 'q')} quantities are in the result {got!r}; text={text!r}")
+    realcls = cfg["real"] if d != "PDS3" else "float"
+    if realcls == "RecordingReal" and Counter(out["texts"]) != Counter(case["numerals"]):
+        return (f"C18/{d}/real-text-altered",
+                f"real_cls received {sorted(out['texts'])}, the text has "
+                f"{sorted(case['numerals'])}")
+    return None
+
+
+def loose_cases(acc):
+    for text, nq, numerals_ in SEQ_IN_SET:
+        for d in ("PVL", "ISIS", "ISISv", "default"):
+            for real in ("float", "Decimal", "RecordingReal"):
+                for quantity in (False, True):
+                    cfg = dict(real=real, quantity=quantity, containers=quantity,
+                               via_loads=(d == "default"), entry="str", wiring="shared")
+                    case = dict(dialect=d, cfg=cfg, text=text, nq=nq, numerals=numerals_,
+                                loose=True)
+                    r = run_loose(case)
+                    acc.event("seq-in-set:" + ("refused" if r == "refused" else
+                                               "loaded" if r is None else "fail"))
+                    acc.case(key=repr(case), nontrivial=True)
+                    if r not in (None, "refused"):
+                        acc.fail(r[0], case, r[1])
+
+
 def shards(tier, seed):
     n = 220 if tier == "quick" else 5000
     return [("random_cases", dict(d=PARSERS[j % 6], n=n, seed=seed * 1000 + j))
-            for j in range(18)]
+            for j in range(18)] + [("loose_cases", {})]
 
 
 def replay(case):
+    if case.get("loose"):
+        r = run_loose(case)
+        return None if r in (None, "refused") else r
     c = dict(case)
     c["expected"] = c03.tuplify(case["expected"])
     return run_case(c)
